@@ -492,7 +492,7 @@ def make_case(prog, case):
             pol.finish()
             pol.armed = False
             d = dict(st=st, tree=tree, srcs=srcs, before=before, r=r, crashed=crashed, pol=pol, new_band=new_band,
-                     opts=(B, C, H), log0=nwrites_before, ar=ar)
+                     opts=(B, C, H), log0=nwrites_before, log1=len(st.log), ar=ar)
             # the oracle may fork too (slicing symbolic ranges), so it runs inside the explored path
             d['problems'] = check_backup_outcome(ex, d, case)
             return d
@@ -510,16 +510,62 @@ def make_case(prog, case):
                 return
             d = out[1]
             problems = d['problems']
+            for ev in coverage_events(ex, d):
+                res['cov:' + ev] = res.get('cov:' + ev, 0) + 1
             if problems:
                 r0, m = ex.E.check()
                 res['bad'].append({'kind': 'problem', 'problems': problems[:6], 'case': case, 'fired': d['pol'].fired,
                                    'result': None if d['r'] is None else d['r'][0], 'model': model_values(m),
                                    'log': [(i, v, p) for i, a, v, p, act in d['st'].log]})
-            elif len(res['samples']) < 1 and d['r'] and d['r'][0] == 'ok' and mode == 'none':
+            elif len(res['samples']) < 1 and (d['pol'].fired or mode == 'none') and not case.get('sym_meta'):
+                # one clean path per case is kept with its whole storage trace: it is replayed natively and the two
+                # traces are compared (conformance of the model with the implementation)
                 r0, m = ex.E.check()
-                res['samples'].append({'case': case, 'model': model_values(m), 'storage_trace': [(v, p) for i, a, v, p, act in d['st'].log][-14:]})
+                res['samples'].append({'case': case, 'model': model_values(m), 'fired': d['pol'].fired,
+                                       'result': 'crashed' if d['crashed'] else d['r'][0] if d['r'] else None,
+                                       'log': [(i, v, p) for i, a, v, p, act in d['st'].log],
+                                       'storage_trace': [(v, p) for i, a, v, p, act in d['st'].log[d['log0']:d['log1']]]})
         return h, on_path, res
     return mk_
+
+
+def coverage_events(ex, d):
+    """Witness events of one explored path (vacuity guard): which kind of crash/fault point was exercised and which
+    structural situations of the writer occurred.  Counted per check; a required event that never occurs makes the
+    check inconclusive."""
+    from ..backup_checks import path_role
+    ev = []
+    pol, st = d['pol'], d['st']
+    if pol.fired:
+        act = pol.fired[3]
+        ev.append('%s:%s:%s' % ('fault' if act not in ('stop', 'empty_stop') else act, pol.fired[1], path_role(pol.fired[2])))
+    else:
+        ev.append('event-free run')
+    ev.append('result:%s' % ('crashed' if d['crashed'] else d['r'][0] if d['r'] else '?'))
+    try:
+        bands, blocks = A.read_store(ex, st)
+    except Exception:
+        return ev
+    info = bands.get(d['new_band'])
+    if info:
+        hunks = {n: es for n, es in info['hunks'].items() if es}
+        if len(hunks) >= 2:
+            ev.append('band with several hunks')
+        users = {}
+        for n, es in hunks.items():
+            for e in es:
+                addrs = field(ex, e, 'index::entry::IndexEntry', 'addrs').items
+                if len(addrs) >= 2:
+                    ev.append('file split over several blocks')
+                for a in addrs:
+                    h = field(ex, a, 'blockdir::Address', 'hash')
+                    users.setdefault(h.name, set()).add(id(e))
+        if any(len(u) >= 2 for u in users.values()):
+            ev.append('block shared by several files')
+        written = {p for (i, a, v, p, act) in st.log[d['log0']:] if v == 'write'}
+        if any(('d/%s/%s' % (h[:3], h)) not in written for h in users):
+            ev.append('entry refers to a block stored earlier')
+    return sorted(set(ev))
 
 
 def model_values(m):
